@@ -2,6 +2,7 @@ SPECIFICATION MCSpec
 CONSTANTS
   NWriters = 2
   Mode = "dist"
+  FirstUse = FALSE
   Recheck = TRUE
   TrackSched = FALSE
   CellMap = "pair"
